@@ -244,6 +244,17 @@ Theorem c07_f72_refuted :
 Proof. exact f72_refuted. Qed.
 Print Assumptions c07_f72_refuted.
 
+(* the deprecated pair with the roster arriving after the genuine tree: the queued forged
+   description is dropped by the current code, used by the code without F72 *)
+Theorem c07_late_roster_keeps_tree :
+  lookup 2 (store (run (only 71) init late_roster_ops)) = Some (Have T2) /\
+  delivered (kx 2 91) (r_events (step (only 71) (run (only 71) init late_roster_ops) (ping 1 2 91 1))) = true /\
+  ptm (run (only 71) init late_roster_ops) = [] /\
+  lookup 2 (store (run (only 72) init late_roster_ops)) <> Some (Have T2) /\
+  delivered (kx 2 91) (r_events (step (only 72) (run (only 72) init late_roster_ops) (ping 1 2 91 1))) = false.
+Proof. exact late_roster_keeps_tree. Qed.
+Print Assumptions c07_late_roster_keeps_tree.
+
 (* recorded, not repaired: a forged answer to a pending tree request is stored *)
 Theorem c07_f73_forged_requested_tree :
   exists ops, lookup 2 (store (run all_fixed init ops)) <> Some (Have T2) /\
